@@ -79,10 +79,20 @@ def run(chk):
         "p in [0,N) and -mu for p in [N,2N).")
     chk.trusted = ["clang 14 front end", "summariser", "affine prover"]
     for v in prog.variants():
-        vn = v.name
         chk.analysed["variants"] = chk.analysed.get("variants", 0) + 1
+        evaluate(chk, v, ("_FFT", ""))
+        # R4 / R5: shared analyses evaluated here as well (rule ids of this property)
+        c14.check_extraction(chk, v, rule="R4")
+        c11_chk = _Sub(chk, "R5")
+        c11.check_monomial(c11_chk, v, "torusPolynomialMulByXai", "coefsT", False)
+
+
+def evaluate(chk, v, suffixes):
+    """the bootstrapping chain rules R1, R2, R3, R6, R7 for the given implementation variants"""
+    if True:
+        vn = v.name
         summaries = {}
-        for suffix in ("_FFT", ""):
+        for suffix in suffixes:
             tag = "FFT" if suffix else "coef"
             # ---------------- woKS: R1, R2, R6
             f = v.fn("tfhe_bootstrap_woKS" + suffix)
@@ -212,10 +222,6 @@ def run(chk):
                         where=b.where, ok="u = new_LweSample(&accum_params->extracted_lweparams); woKS(u, bk, mu, x); lweKeySwitch(result, bk->ks, u)",
                         bad="; ".join(problems), variant=vn)
             chk.vcount(vn, "R7.bootstrap_variants")
-        # R4 / R5: shared analyses evaluated here as well (rule ids of this property)
-        c14.check_extraction(chk, v, rule="R4")
-        c11_chk = _Sub(chk, "R5")
-        c11.check_monomial(c11_chk, v, "torusPolynomialMulByXai", "coefsT", False)
 
 
 class _Sub:
@@ -230,6 +236,15 @@ class _Sub:
     def refuted(self, rule, key, **kw):
         return self.chk.refuted(self.rule, key, **kw)
 
+    def proved(self, rule, key, **kw):
+        return self.chk.proved(self.rule, key, **kw)
+
+    def assumed(self, rule, key, **kw):
+        return self.chk.assumed(self.rule, key, **kw)
+
+    def ob(self, rule, key, status, **kw):
+        return self.chk.ob(self.rule, key, status, **kw)
+
     def broken(self, msg):
         return self.chk.broken(msg)
 
@@ -238,3 +253,12 @@ class _Sub:
 
     def count(self, *a, **k):
         pass
+
+    def set_count(self, *a, **k):
+        pass
+
+    def note(self, *a, **k):
+        return self.chk.note(*a, **k)
+
+    def assume(self, *a, **k):
+        return self.chk.assume(*a, **k)
